@@ -57,7 +57,7 @@ theorem deliverStep_inv {c : Ctl.State (Load.State τ) τ} {k : Nat} {w w' : Wk 
         WkInv c k ({ w with inbox := rest, w := ww } : Wk τ) := by
       intro ww is h1 h2 h3 ⟨qs, h4, h5, h6⟩ h7
       refine ⟨?_, ?_, ?_, ?_, ?_, ?_, fun _ => trivial, ?_, h.ownP, h.ownO, h.evPlain, h.notBroken, h.notice1, h.notice2, h.noticeDown,
-        h.inactive, h.inactiveDown, ?_, h.ready, h.readyTail, h.readyColl, h.qn, h.keysActive, ?_⟩
+        h.inactive, h.inactiveDown, h.noticeLast, h.bootNoReady, ?_, h.ready, h.readyTail, h.readyColl, h.qn, h.keysActive, ?_⟩
       · intro hl; simp only at hl ⊢; rw [h1]; exact L.loopCb hl
       · intro hr; simp only at hr ⊢; rw [h1] at hr; rw [h2]; exact L.running hr
       · intro hr; simp only at hr ⊢; rw [h1] at hr; rw [h3]; exact L.have1 hr
